@@ -31,10 +31,23 @@ def run(tier, seed):
     for viol in sp['violations']:
         if viol['sig'].get('property') == 'C06':
             v.violation(viol['sig'], viol.get('replay'))
+    # the application level: real `thru join` killed in mid-transfer, the partly downloaded file changed by hand, second
+    # real join answers "overwrite" - the old metadata must not make the new download skip anything
+    import os
+    work = vlib.scratch("c06e2e-")
+    srvb = vlib.build_repo_bin('./cmd/thruserv', 'thruserv')
+    thru = vlib.build_repo_bin('./cmd/thru', 'thru')
+    er = vlib.run_vh_sharded(['e2e-resume', '-stale', '-n', '3' if tier == "quick" else '12', '-seed', str(seed), '-thruserv', srvb, '-thru', thru,
+                              '-trace-out', os.path.join(work, "t")], 3, timeout=1800)
+    for viol in er['violations']:
+        sig = dict(viol['sig'])
+        if sig.pop('prop', None) == PROP:
+            v.violation(sig, viol.get('replay'))
     if res['drift']:
         raise vlib.HarnessTrouble("tamper driver could not build its template: %s" % str(res['drift_samples'][:1])[:400])
     v.coverage = dict(evaluations=res['behaviours'], distinct_nontrivial=res['distinct'],
                       rule="one resumed transfer per tampered state of a real interrupted directory; non-trivial = every case except the untouched control",
+                      overwrite_choice_on_real_binaries=dict(sessions=er['behaviours'], first_run_killed=er['distinct'], outcomes=er['extra'].get('outcomes')),
                       torn_chunk_beyond_4GiB=dict(runs=sp['behaviours'], outcomes=sp['extra'].get('outcomes')),
                       samples=res['samples'][:8], by_kind=res['extra'].get('by_kind'), outcomes=res['extra'].get('outcomes'),
                       exhaustive=(stride == 1 and not res['extra'].get('skipped_over_budget')),
